@@ -55,6 +55,8 @@ def run_all(ck):
     from . import ikentry
     mirdump.load(REPO); ensure_replay()
     jobs = [('checks.ikentry', 'check_pipeline', ('inverse_continuing', dict(n=n, dof=6, cons=c, prev='finite', **({'weight': 0} if c == 'sym' else {})), ('C05',))) for n in ((2,) if ck.tier == 'quick' else (1, 2, 3)) for c in ('none', 'sym')]
+    # J4 and J6 reversed together / separately: the recovered answer redistributes their common rotation counted in the same direction
+    jobs += [('checks.ikentry', 'check_pipeline', ('inverse_continuing', dict(n=2, dof=6, cons='none', prev='finite', sign46=s46), ('C05',))) for s46 in ((-1, -1),)]      # different J4/J6 signs: the solver does not finish these (3 s budget per query); covered by the native turned-tool battery only
     ck.parallel(jobs)
 
 if __name__ == '__main__':
